@@ -404,6 +404,12 @@ fn evaluate_expr_internal(
     }
 }
 
+/// Calendar date of a Date32 value (days since 1970-01-01); `None` when the day count is outside
+/// the range chrono can represent (including the values for which `days + 719163` overflows).
+fn date32_to_naive(days: i32) -> Option<chrono::NaiveDate> {
+    chrono::NaiveDate::from_num_days_from_ce_opt(days.checked_add(719163)?)
+}
+
 fn find_column_index(batch: &RecordBatch, col: &Column) -> Result<usize> {
     let schema = batch.schema();
 
@@ -1111,8 +1117,7 @@ fn evaluate_scalar_func(
                     .iter()
                     .map(|opt| {
                         opt.map(|days| {
-                            let date = chrono::NaiveDate::from_num_days_from_ce_opt(days + 719163)
-                                .unwrap_or_default();
+                            let date = date32_to_naive(days).unwrap_or_default();
                             match field_name.as_str() {
                                 "YEAR" => date.year(),
                                 "MONTH" => date.month() as i32,
@@ -1169,8 +1174,7 @@ fn evaluate_scalar_func(
                     .iter()
                     .map(|opt| {
                         opt.map(|days| {
-                            let date = chrono::NaiveDate::from_num_days_from_ce_opt(days + 719163)
-                                .unwrap_or_default();
+                            let date = date32_to_naive(days).unwrap_or_default();
                             match func {
                                 ScalarFunction::Year => date.year(),
                                 ScalarFunction::Month => date.month() as i32,
@@ -2085,8 +2089,7 @@ fn evaluate_scalar_func(
                     .iter()
                     .map(|opt| {
                         opt.map(|days| {
-                            let date = chrono::NaiveDate::from_num_days_from_ce_opt(days + 719163)
-                                .unwrap_or_default();
+                            let date = date32_to_naive(days).unwrap_or_default();
                             ((date.month() - 1) / 3 + 1) as i32
                         })
                     })
@@ -2109,8 +2112,7 @@ fn evaluate_scalar_func(
                     .iter()
                     .map(|opt| {
                         opt.map(|days| {
-                            let date = chrono::NaiveDate::from_num_days_from_ce_opt(days + 719163)
-                                .unwrap_or_default();
+                            let date = date32_to_naive(days).unwrap_or_default();
                             date.iso_week().week() as i32
                         })
                     })
@@ -2133,8 +2135,7 @@ fn evaluate_scalar_func(
                     .iter()
                     .map(|opt| {
                         opt.map(|days| {
-                            let date = chrono::NaiveDate::from_num_days_from_ce_opt(days + 719163)
-                                .unwrap_or_default();
+                            let date = date32_to_naive(days).unwrap_or_default();
                             date.weekday().num_days_from_sunday() as i32 + 1
                         })
                     })
@@ -2157,8 +2158,7 @@ fn evaluate_scalar_func(
                     .iter()
                     .map(|opt| {
                         opt.map(|days| {
-                            let date = chrono::NaiveDate::from_num_days_from_ce_opt(days + 719163)
-                                .unwrap_or_default();
+                            let date = date32_to_naive(days).unwrap_or_default();
                             date.ordinal() as i32
                         })
                     })
@@ -2194,7 +2194,7 @@ fn evaluate_scalar_func(
                             return None;
                         }
                         let days = date32_arr.value(i);
-                        let date = NaiveDate::from_num_days_from_ce_opt(days + 719163)?;
+                        let date = date32_to_naive(days)?;
                         let unit = unit_arr.value(i).to_lowercase();
                         let value = get_int_value(value_arr, i)? as i64;
 
@@ -2309,8 +2309,8 @@ fn evaluate_scalar_func(
                         }
                         let days1 = d1_arr.value(i);
                         let days2 = d2_arr.value(i);
-                        let date1 = NaiveDate::from_num_days_from_ce_opt(days1 + 719163)?;
-                        let date2 = NaiveDate::from_num_days_from_ce_opt(days2 + 719163)?;
+                        let date1 = date32_to_naive(days1)?;
+                        let date2 = date32_to_naive(days2)?;
                         let unit = unit_arr.value(i).to_lowercase();
 
                         Some(match unit.as_str() {
@@ -2397,7 +2397,7 @@ fn evaluate_scalar_func(
                             return None;
                         }
                         let days = date32_arr.value(i);
-                        let date = NaiveDate::from_num_days_from_ce_opt(days + 719163)?;
+                        let date = date32_to_naive(days)?;
                         let unit = unit_arr.value(i).to_lowercase();
 
                         let truncated = match unit.as_str() {
@@ -2508,7 +2508,7 @@ fn evaluate_scalar_func(
                             return None;
                         }
                         let days = date32_arr.value(i);
-                        let date = NaiveDate::from_num_days_from_ce_opt(days + 719163)?;
+                        let date = date32_to_naive(days)?;
                         let unit = unit_arr.value(i).to_lowercase();
 
                         Some(match unit.as_str() {
@@ -3919,8 +3919,7 @@ fn evaluate_scalar_func(
                     .iter()
                     .map(|opt| {
                         opt.map(|days| {
-                            let date = chrono::NaiveDate::from_num_days_from_ce_opt(days + 719163)
-                                .unwrap_or_default();
+                            let date = date32_to_naive(days).unwrap_or_default();
                             date.iso_week().year()
                         })
                     })
@@ -3991,8 +3990,7 @@ fn evaluate_scalar_func(
                     .iter()
                     .map(|opt| {
                         opt.map(|days| {
-                            let date = chrono::NaiveDate::from_num_days_from_ce_opt(days + 719163)
-                                .unwrap_or_default();
+                            let date = date32_to_naive(days).unwrap_or_default();
                             let last =
                                 chrono::NaiveDate::from_ymd_opt(date.year(), date.month(), 1)
                                     .unwrap()
@@ -4107,8 +4105,7 @@ fn evaluate_scalar_func(
                     .iter()
                     .map(|opt| {
                         opt.map(|days| {
-                            let date = chrono::NaiveDate::from_num_days_from_ce_opt(days + 719163)
-                                .unwrap_or_default();
+                            let date = date32_to_naive(days).unwrap_or_default();
                             date.format("%Y-%m-%d").to_string()
                         })
                     })
@@ -4190,7 +4187,7 @@ fn evaluate_scalar_func(
                             return None;
                         }
                         let days = date_arr.value(i);
-                        let date = chrono::NaiveDate::from_num_days_from_ce_opt(days + 719163)?;
+                        let date = date32_to_naive(days)?;
                         let fmt = fmt_arr.value(i);
                         let chrono_fmt = convert_format(fmt);
                         Some(date.format(&chrono_fmt).to_string())
